@@ -10,6 +10,7 @@ REPO = '/repo'
 DRIVER = os.path.join(LEAN, '.lake', 'build', 'bin', 'fpdriver')
 BIN = os.path.join(CACHE, 'target', 'release', 'fastpasta')
 HARNESS = os.path.join(CACHE, 'target-harness', 'release', 'fp_harness')
+HOOKBIN = os.path.join(CACHE, 'target-hook', 'release', 'fastpasta')
 REPLAYS = os.path.join(ROOT, 'replays')
 EVIDENCE = os.path.join(ROOT, 'evidence')
 ALLOWED_AXIOMS = {'propext', 'Classical.choice', 'Quot.sound'}
@@ -79,6 +80,16 @@ def build_impl():
             pass
         rc2, out2 = sh(['cargo', 'build', '--release', '--offline'], cwd=os.path.join(ROOT, 'harness'), env=e2, timeout=3600)
         return rc1 == 0, rc2 == 0, out1 + '\n' + out2
+
+
+def build_hook():
+    """release binary of /repo with the verification hooks compiled in (schedule perturbation, traces)"""
+    with Lock('cargo-hook'):
+        e = env_offline()
+        e['CARGO_TARGET_DIR'] = os.path.join(CACHE, 'target-hook')
+        e['RUSTFLAGS'] = '--cfg crambl_fastpasta_verif'
+        rc, out = sh(['cargo', 'build', '--release', '--offline', '-p', 'fastpasta'], cwd=REPO, env=e, timeout=3600)
+        return rc == 0, out
 
 
 # ------------------------------------------------------------------ axiom audit
